@@ -10,6 +10,7 @@ encoding of the typed messages and its independence of transport
 fragmentation is property C11.
 -/
 import MpcVerif.Proofs.Proto2
+import MpcVerif.Proofs.Proto2Int
 import MpcVerif.Props.C01
 
 namespace Mpc
@@ -144,5 +145,87 @@ def exampleCircuit2 : Circuit2 :=
 
 example : exampleCircuit2.WF = true := by decide
 example : exampleCircuit2.expected [true, false] [true] = [1, 1] := by decide +kernel
+
+/-! ## Inputs as the API takes them: integers (`*big.Int`), any sign, any magnitude -/
+
+/-- The expected results for integer inputs: `Circuit.Compute` on the
+flattened argument values of both parties, split per declared output. -/
+def Circuit2.expectedInt (p : Circuit2) (xs ys : ArgVals) : List Nat :=
+  (chunk p.outWidths (p.computeInts xs ys)).map packLE
+
+/-- **C02 on integers.**  For EVERY pair of integer inputs -- negative values,
+values wider than the declared argument, zero -- given as flattened members of
+the declared widths, both parties return `Circuit.Compute` of those integers.
+The only hypothesis on the inputs is that the garbler's member widths add up to
+its argument width (which is how `Circuit.Inputs[0]` is declared). -/
+theorem C02_both_get_f_int [DecidableEq L] (p : Circuit2) (hwf : p.WF = true)
+    (mkH : List UInt8 → Hash L) (key : List UInt8) (r : L) (hr : sbit r = true) (inl : Nat → L)
+    (xs ys : ArgVals) (hx : argWidth xs = p.n0) (ot : OtFun L) (hot : OtSpec ot) :
+    run2Int p mkH key r inl xs ys ot = .ok (p.expectedInt xs ys, p.expectedInt xs ys) := by
+  rw [run2Int, C02_both_get_f p hwf mkH key r hr inl _ _ (by rw [encodeArg_length, hx]) ot hot]
+  simp [Circuit2.expectedInt, Circuit2.expected, Circuit2.computeInts, encodeArg_append]
+
+/-- The wire bits of an argument of width `w` with value `v` are the `w` binary
+digits of `v mod 2^w`: two's complement for a negative `v`, truncation for a
+`v` wider than the argument. -/
+theorem C02_input_bits_twos_complement (w : Nat) (v : Int) :
+    (bitsOfInt w v).length = w ∧ packLE (bitsOfInt w v) = (v % 2 ^ w).toNat :=
+  ⟨bitsOfInt_length w v, packLE_bitsOfInt w v⟩
+
+/-- Only the residue of every member modulo `2^width` matters to the session. -/
+theorem C02_session_depends_on_residues [DecidableEq L] (p : Circuit2) (mkH : List UInt8 → Hash L)
+    (key : List UInt8) (r : L) (inl : Nat → L) (w : Nat) (v v' : Int) (ys : ArgVals) (ot : OtFun L)
+    (h : v % 2 ^ w = v' % 2 ^ w) :
+    run2Int p mkH key r inl ys [(w, v)] ot = run2Int p mkH key r inl ys [(w, v')] ot ∧
+    run2Int p mkH key r inl [(w, v)] ys ot = run2Int p mkH key r inl [(w, v')] ys ot := by
+  simp [run2Int, encodeArg, bitsOfInt_congr w v v' h]
+
+/-- The packed value `IOArg.Parse` builds for a struct argument
+(`SetBit(offset+i, member.Bit(i))`) carries exactly the members' bits: a session
+on the packed value is the session on the members. -/
+theorem C02_packed_argument_faithful [DecidableEq L] (p : Circuit2) (mkH : List UInt8 → Hash L)
+    (key : List UInt8) (r : L) (inl : Nat → L) (xs ys : ArgVals) (ot : OtFun L) :
+    run2Int p mkH key r inl [(argWidth xs, (packArg xs : Int))] [(argWidth ys, (packArg ys : Int))] ot =
+      run2Int p mkH key r inl xs ys ot := by
+  simp [run2Int, encodeArg, bitsOfInt_packArg]
+
+/-- Reading the machine words of the magnitude (`big.Int.Bits()`) agrees with
+`Bit(i)` on every NON-NEGATIVE value ... -/
+theorem C02_abs_words_agree_nonneg (w n : Nat) : absBits w (n : Int) = bitsOfInt w (n : Int) :=
+  absBits_natCast w n
+
+/-- ... and on no negative value whose width reaches its lowest set bit: the
+words of `|v|` are the words of `-v`. -/
+theorem C02_abs_words_differ_witness : absBits 8 (-5) ≠ bitsOfInt 8 (-5) ∧
+    absBits 8 (-5) = bitsOfInt 8 5 ∧ packLE (bitsOfInt 8 (-5)) = 251 := by decide
+
+/-- A circuit that copies the evaluator's two bits (xored with the garbler's
+bit on the first). -/
+def exampleCircuit3 : Circuit2 :=
+  { c := { numWires := 5, nIn := 3, nOut := 2, gates := [⟨.xor, 0, 1, 3⟩, ⟨.and, 2, 2, 4⟩] },
+    n0 := 1, n1 := 2, outWidths := [2] }
+
+/-- Session-level witness: an evaluator that takes its choice flags from the
+words of `|y|` finishes without error, both parties agree -- on `f(x, |y|)`,
+which is not `f(x, y)`: for every key derivation, randomness and OT. -/
+theorem C02_abs_words_session_wrong [DecidableEq L] (mkH : List UInt8 → Hash L) (key : List UInt8)
+    (r : L) (hr : sbit r = true) (inl : Nat → L) (ot : OtFun L) (hot : OtSpec ot) :
+    run2 exampleCircuit3 mkH key r inl (encodeArg [(1, 0)]) (absBits 2 (-1)) ot = .ok ([1], [1]) ∧
+    run2Int exampleCircuit3 mkH key r inl [(1, 0)] [(2, -1)] ot = .ok ([3], [3]) := by
+  constructor
+  · rw [C02_both_get_f exampleCircuit3 (by decide) mkH key r hr inl _ _ (by decide) ot hot]
+    have : exampleCircuit3.expected (encodeArg [(1, 0)]) (absBits 2 (-1)) = [1] := by decide +kernel
+    rw [this]
+  · rw [C02_both_get_f_int exampleCircuit3 (by decide) mkH key r hr inl _ _ (by decide) ot hot]
+    have : exampleCircuit3.expectedInt [(1, 0)] [(2, -1)] = [3] := by decide +kernel
+    rw [this]
+
+example : exampleCircuit3.WF = true := by decide
+example : argWidth [(1, (0 : Int))] = exampleCircuit3.n0 := by decide
+example : exampleCircuit2.expectedInt [(2, -1)] [(1, -1)] = exampleCircuit2.expected [true, true] [true] := by
+  decide +kernel
+example : (-5 : Int) % 2 ^ 8 = 251 % 2 ^ 8 := by decide
+example : bitsOfInt 3 (-5) = [true, true, false] ∧ bitsOfInt 3 1003 = [true, true, false] := by decide
+example : packArg [(4, -1), (5, 3)] = 63 ∧ argWidth [(4, (-1 : Int)), (5, 3)] = 9 := by decide
 
 end Mpc
